@@ -100,4 +100,10 @@ def wallList (z : TZ.TzFile) (i : Int) : R (List Int) :=
 /-- the wall reading the zone model works on: whole seconds and fold -/
 def toWall (d : Dt) : TZ.Wall := { wall := d.us / M, fold := d.fold }
 
+/-- `self.is_ambiguous(dt)` called from `_tzinfo`: dynamic dispatch to a subclass override when there is one -/
+def dispatchAmbiguous (z : TZ.GenericZone) (base : Dt → R Bool) (d : Dt) : R Bool :=
+  match z.ambiguousOverride with
+  | some ov => .ok (ov (toWall d).wall)
+  | none => base d
+
 end DtPy
